@@ -615,3 +615,37 @@ def lmap_dict(rows, reuse=False):
     _DICT.clear()
     _DICT.update(m)
     return _DICT
+
+
+class _Str(str):
+    """a str subclass (what a user's record type or a framework's string type is)"""
+
+
+def typed_str(s):
+    """the TYPE of a string argument must not matter: a share of the strings (chosen by their content, so that a replay builds the same
+    object) is handed over as numpy.str_ (an element read from a NumPy array of strings) or as an instance of a str subclass"""
+    if s is None or os.environ.get("VERIF_LAYOUT", "1") == "0":
+        return s
+    h = zlib.crc32(s.encode("utf-8", "surrogatepass")) % 6
+    if h == 0:
+        return np.str_(s)
+    if h == 1:
+        return _Str(s)
+    return s
+
+
+CRC32_OFFSETS = [0, 6, 9, 10, 16, 20, 21, 22, 24, 25, 27, 28, 30, 31, 32]   # 32 - (exponents of the CRC-32 polynomial)
+
+
+def checksum_twin(rng, bits):
+    """a message of the same length with the same CRC-32 of its '0'/'1' text (and of its bytes): flipping the bits at
+    start + (32 - e) for the exponents e of the CRC-32 polynomial G adds G(x^8) = G(x)^8 to the text, a multiple of G; with two such
+    flips patterns overlapping the value can change at both ends.  None when the message is shorter than 33 bits."""
+    if len(bits) < 33:
+        return None
+    out = list(bits)
+    for _ in range(rng.choice([1, 1, 2])):
+        start = rng.randrange(0, len(bits) - 32)
+        for o in CRC32_OFFSETS:
+            out[start + o] ^= 1
+    return out if out != list(bits) else None
